@@ -188,7 +188,20 @@ class BanditStep(Case):
             ident = conj(*[eq(Spost[i][j] + Sv[i] * vTS[j], Spre[i][j]) for i in range(d) for j in range(d)])
             # guard: the update divides by 1 + v^T S v, which is > 0 for every positive semi-definite S
             per_arm.append(disj(neg(eq(a, k)), eq(1 + quad(k), 0), ident))
-        res.append(Ob("stored-matrix-satisfies-S'+S'v(v^T S)=S-for-the-feature-of-the-arm-returned", conj(*per_arm), site=self.site + "/sherman-morrison"))
+        if d <= 2:
+            res.append(Ob("stored-matrix-satisfies-S'+S'v(v^T S)=S-for-the-feature-of-the-arm-returned", conj(*per_arm), site=self.site + "/sherman-morrison"))
+        else:
+            # larger matrices: one obligation per entry (each a smaller rational identity for the solver)
+            for k in range(A):
+                if not (isinstance(a, Sym) or a == k):
+                    continue
+                vk = feats[k]
+                vTS = [sum(vk[i] * Spre[i][j] for i in range(d)) for j in range(d)]
+                Sv = [sum(Spost[i][j] * vk[j] for j in range(d)) for i in range(d)]
+                for i in range(d):
+                    for j in range(d):
+                        res.append(Ob(f"S'+S'v(v^T S)=S/entry{i}{j}", disj(neg(eq(a, k)), eq(1 + quad(k), 0), eq(Spost[i][j] + Sv[i] * vTS[j], Spre[i][j])),
+                                      site=self.site + "/sherman-morrison"))
         res.append(Ob("stored-matrix-stays-symmetric", conj(*[eq(Spost[i][j], Spost[j][i]) for i in range(d) for j in range(i)]), site=self.site + "/sherman-morrison"))
         if d <= 2:        # a witness for the twin is only cheap for small matrices
             res.append(Ob("twin/matrix-unchanged", conj(*[eq(Spost[i][j], Spre[i][j]) for i in range(d) for j in range(d)]), expect="sat"))
